@@ -251,6 +251,18 @@ impl Register {
     }
 }
 
+#[cfg(feature = "verif-hooks")]
+impl Register {
+    /// Verification hook: runs `f` while the register's write lock is held,
+    /// the way `update_info` holds it for the length of its body. Every
+    /// other method of the register has to wait until `f` has returned.
+    /// Exposes, never alters, behaviour.
+    pub fn verif_with_write_lock<R>(&self, f: impl FnOnce() -> R) -> R {
+        let _guard = self.info.write().unwrap();
+        f()
+    }
+}
+
 #[cfg(test)]
 mod tests {
 
